@@ -89,7 +89,10 @@ def infer(s, flag=""):
         v = int(s)
         if fits(v):
             return asint(v)
-        return [("float", float(v))]
+        try:
+            return [("float", float(v))]
+        except OverflowError:
+            return [("float", None), ("string", None)]
     if LZ.match(s):
         if flag == "-O":
             body = s.lstrip("+-")
